@@ -1,10 +1,12 @@
 #!/bin/sh
-# tools/try_patch.sh <patch.diff> <Cxx> [tier]  — apply a patch in a scratch worktree of /repo HEAD, run one check
-# against it (VERIF_REPO), print the verdict lines, remove the worktree.  Never touches /repo's working tree.
+# tools/try_patch.sh [-R] <patch.diff> <Cxx> [tier]  — apply a patch (or its reverse with -R) in a scratch worktree of
+# /repo HEAD, run one check against it (VERIF_REPO), print the verdict lines, remove the worktree.  Never touches /repo.
 set -u
+REV=""
+if [ "$1" = "-R" ]; then REV="-R"; shift; fi
 P=$(readlink -f "$1"); ID=$2; TIER=${3:-quick}
 WT=$(mktemp -d /tmp/wt_try_XXXXXX); rmdir "$WT"
 git -C /repo worktree add -q "$WT" HEAD || exit 2
-if ! git -C "$WT" apply "$P"; then echo "PATCH DOES NOT APPLY"; git -C /repo worktree remove --force "$WT"; exit 2; fi
+if ! git -C "$WT" apply $REV "$P"; then echo "PATCH DOES NOT APPLY"; git -C /repo worktree remove --force "$WT"; exit 2; fi
 cd /verif && VERIF_REPO="$WT" timeout 3000 ./check.py "$ID" --tier "$TIER" 2>&1 | grep -E "VIOLATION|KNOWN-FINDING|why:|no longer shown|INTERNAL| (OK|FAIL) tier" | cut -c1-400 | head -12
 git -C /repo worktree remove --force "$WT"
